@@ -16,6 +16,7 @@ import (
 	"os"
 	"reflect"
 	"runtime/debug"
+	"sync"
 	"time"
 )
 
@@ -42,6 +43,107 @@ type Ctx struct {
 	Arg    map[string]string
 	// Prelude calls are re-executed at the start of every batch history (e.g. Config).
 	Prelude []Event
+	// Conc: stateless calls are remembered and executed again from several goroutines at once (ConcurrentReplay).
+	Conc     bool
+	pure     []pureCall
+	pureSeen int
+	prng     *rand.Rand
+}
+
+type pureCall struct {
+	call Event
+	res  []byte
+}
+
+const maxPure = 3000
+
+func resultBytes(e Event) []byte {
+	b, err := json.Marshal(denil(e))
+	if err != nil {
+		fatal("marshal: %v", err)
+	}
+	return b
+}
+
+// the sample has its own random stream: remembering calls must not change which calls the generators make
+func (c *Ctx) pureRng() *rand.Rand {
+	if c.prng == nil {
+		c.prng = rand.New(rand.NewSource(c.Seed ^ 0x5eed))
+	}
+	return c.prng
+}
+
+// remember keeps a uniform sample of the stateless calls of this run.
+func (c *Ctx) remember(a, e Event) {
+	c.pureSeen++
+	pc := pureCall{a, resultBytes(e)}
+	if len(c.pure) < maxPure {
+		c.pure = append(c.pure, pc)
+	} else if j := c.pureRng().Intn(c.pureSeen); j < maxPure {
+		c.pure[j] = pc
+	}
+}
+
+// ConcurrentReplay executes the remembered stateless calls again, the same list from 8 goroutines at once (each
+// starting a few calls apart, so that similar calls overlap in time), and counts results that differ from the ones
+// recorded sequentially.  The verdict on the count is the specification's (TraceBase.ConcurrentReplayVerdict).
+func (c *Ctx) ConcurrentReplay() {
+	if !c.Conc || len(c.pure) == 0 {
+		return
+	}
+	// only calls that are deterministic when repeated sequentially take part
+	var calls []pureCall
+	for _, pc := range c.pure {
+		if string(resultBytes(Do(nil, pc.call))) == string(pc.res) {
+			calls = append(calls, pc)
+		}
+	}
+	const workers = 8
+	type diff struct {
+		call      Event
+		seq, conc string
+	}
+	var mu sync.Mutex
+	var diffs []diff
+	total := 0
+	var wg sync.WaitGroup
+	start := make(chan struct{})
+	for g := 0; g < workers; g++ {
+		wg.Add(1)
+		go func(g int) {
+			defer wg.Done()
+			<-start
+			for pass := 0; pass < 2; pass++ {
+				for k := range calls {
+					pc := calls[(k+g*3)%len(calls)]
+					got := resultBytes(Do(nil, pc.call))
+					mu.Lock()
+					total++
+					if string(got) != string(pc.res) && len(diffs) < 50 {
+						diffs = append(diffs, diff{pc.call, string(pc.res), string(got)})
+					} else if string(got) != string(pc.res) {
+						diffs = append(diffs, diff{})
+					}
+					mu.Unlock()
+				}
+			}
+		}(g)
+	}
+	close(start)
+	wg.Wait()
+	cut := func(s string) string {
+		if len(s) > 1500 {
+			return s[:1500] + "..."
+		}
+		return s
+	}
+	e := Event{"op": "ConcurrentReplay", "calls": len(calls), "dropped_nondeterministic": len(c.pure) - len(calls), "workers": workers, "executions": total,
+		"mismatches": len(diffs), "first": map[string]interface{}{"sequential": "", "concurrent": ""}}
+	if len(diffs) > 0 {
+		e["first"] = map[string]interface{}{"sequential": cut(diffs[0].seq), "concurrent": cut(diffs[0].conc)}
+	}
+	c.Flush()
+	c.Hist([]Event{e})
 }
 
 func (c *Ctx) Thorough() bool { return c.Tier == "thorough" }
@@ -281,6 +383,9 @@ func Do(h *HState, a Event) Event {
 // Call executes a stateless call and adds its event to the batch.
 func (c *Ctx) Call(a Event) Event {
 	e := Do(nil, a)
+	if c.Conc {
+		c.remember(a, e)
+	}
 	c.Add(e)
 	return e
 }
